@@ -85,6 +85,12 @@ def closePub (stopFirst : Bool) (sides : List Nat) (fuel : Nat) (c : Nat) (msg :
 def sidesAfterClose (onlyPrimary : Bool) (sides : List Nat) (c : Nat) : List Nat :=
   if c = 0 ∨ !onlyPrimary then [] else sides.filter (· ≠ c)
 
+/-- the forwarder sets of a topology - the `sides` list of `localPub`: one for the client (side 0), one per pilot (its
+    agent_0 session), and, were sub-agent sessions to crosswire as well (`subAgentsWire`, read from the source), one more
+    on the pilot's side per sub-agent (`pilots`: pilot side and number of its sub-agents) -/
+def wiredSides (subAgentsWire : Bool) (pilots : List (Nat × Nat)) : List Nat :=
+  0 :: pilots.flatMap (fun p => p.1 :: (if subAgentsWire then List.replicate p.2 p.1 else []))
+
 /-- number of deliveries to the local subscribers of side `t` -/
 def deliveries (ds : List (Nat × Msg)) (t : Nat) : Nat :=
   (ds.filter (fun d => d.1 = t)).length
